@@ -10,6 +10,9 @@ ROOT = os.path.dirname(os.path.dirname(os.path.abspath(__file__)))
 
 class Clause:
     def __init__(self, kind, tag, text, fn, loop=None, src_line=0):
+        self.finding = None
+        if tag and '!' in tag:
+            tag, self.finding = tag.split('!', 1)
         self.kind, self.tag, self.text, self.fn, self.loop = kind, tag, text.strip(), fn, loop
         self.src_line = src_line
         self.id = None
@@ -413,13 +416,24 @@ def splice_module(text, mod_path, fnspecs, gen, twin=False):
     return rules.apply_edits(text, edits)
 
 
-def build(unit, out_dir, twin=False):
+def build(unit, out_dir, twin=False, findings=False):
     """Assemble the Verus file for a unit. Returns Generated."""
     gen = Generated()
     ctx = rules.Ctx()
     # clause ids
     n = 0
     for fs in unit.fns:
+        # clauses recording a known defect (`[TAG!Fn]`) exist only in the `findings` variant of the unit
+        def keep(c): return findings or not c.finding
+        fs.requires = [c for c in fs.requires if keep(c)]; fs.ensures = [c for c in fs.ensures if keep(c)]
+        for l in fs.loops:
+            l.invariants = [c for c in l.invariants if keep(c)]; l.ensures = [c for c in l.ensures if keep(c)]; l.except_break = [c for c in l.except_break if keep(c)]
+        if getattr(fs, 'tagged_proofs', None):
+            dropped = [c for c in fs.tagged_proofs if not keep(c)]
+            if dropped:
+                di = {c.proof_index for c in dropped}
+                fs.proofs = [(w, r, nn, (t if i_ not in di else '')) for i_, (w, r, nn, t) in enumerate(fs.proofs)]
+                fs.tagged_proofs = [c for c in fs.tagged_proofs if keep(c)]
         if 'inherit' in fs.opts:
             # loop invariants of this function carry the same properties as its post-conditions
             tags = []
